@@ -1,6 +1,7 @@
 -- FAMILIES: polyd=TF.Drv.PolyDiv.polyd
 import TF.Drv.Proto
 import TF.Model.PolyDiv
+import TF.Model.PolyApiD
 import TF.Gen.Consts
 /-!
 driver handler for the family `polyd` (C09): division, reduction, gcd, power-series inversion, clean division.
@@ -93,7 +94,8 @@ def generic (X : Fld α) (op : String) (args : List Arg) : Option String :=
       pure (okP X (modXToTheN p n))
   | "truncate", [p, .nat k] => do
       let p ← X.parse p
-      pure (okP X (truncate F p k))
+      -- `k + 1` in `usize` as compiled in the release profile (finding F13 at `k = usize::MAX`)
+      pure (okP X (truncateUsize F p k))
   | _, _ => none
 
 def bxExt : ExtOps Nat Spec.X3 where
